@@ -35,7 +35,7 @@
 enum { R_WS, R_HDR, R_CHR, R_DEC, R_SUF, R_NDC, R_STR, R_BLK, R_EXP, R_COMMA, R_SEMI, R_COLON, R_NL, R_SPEC, R_PD, R_APD, R_UNIT, R_COUNT };
 #define SPEC_CHR '@'
 #define MAXG 64
-#define MAXL 200
+#define MAXL 1100
 
 typedef struct {
     char name[24], kind[8], file[256];
